@@ -249,3 +249,31 @@ Example lstopo_synthetic_non_vacuous :
   /\ output_synthetic (repeat 65%N 1023) = repeat 65%N 1023 ++ NL
   /\ List.length (output_synthetic_gen (fun l => l) (repeat 65%N 1024)) = 1024%nat.
 Proof. vm_compute. repeat split. Qed.
+
+(* ================= stdin mode ================= *)
+(* the loop of main() that reads locations from stdin reuses the same two bitmaps for every line and zeroes
+   them first: its output is the concatenation of the outputs of INDEPENDENT evaluations of the lines, each
+   from the same zeroed state - for all topologies (dumps), option states, and lists of lines *)
+Theorem calc_stdin_stateless : forall d limit nlv ilv hlv lines st,
+  stdin_loop d limit st lines nlv ilv hlv
+  = seq_out (map (line_out d limit (zero_sets st) nlv ilv hlv) lines).
+Proof. intros. apply stdin_loop_stateless. Qed.
+Print Assumptions calc_stdin_stateless.
+
+(* and a line whose tokens are not options is evaluated exactly as the same tokens on the command line *)
+Theorem calc_stdin_line_eq_cmdline : forall d limit toks st,
+  Forall (fun t => is_dash (content t) = false) toks -> main_loop d limit st toks = line_fold d limit st toks.
+Proof. exact line_fold_eq_main_loop. Qed.
+Print Assumptions calc_stdin_line_eq_cmdline.
+
+(* the reset of BOTH sets matters: two lines "0x1" and "0x2" with -n (nodeset input and output); the
+   variant that does not zero the nodeset (seeded/C20d) prints 0x3 for the second line *)
+Definition ex_dump : dump := mkDump 0 1 0 [] None None [] [] [].
+Definition ex_st_n : cstate := CS 0 true true true true false false None 1 0 false None None None empty2 0.
+Example calc_stdin_reset_matters :
+  stdin_loop ex_dump None ex_st_n [[cstr "0x1"]; [cstr "0x2"]] LoNone LoNone None
+    = Ok (Exit 0 (bytes_of_string "0x00000001" ++ NL ++ bytes_of_string "0x00000002" ++ NL))
+  /\ stdin_loop_gen ex_dump None false ex_st_n [[cstr "0x1"]; [cstr "0x2"]] LoNone LoNone None
+    = Ok (Exit 0 (bytes_of_string "0x00000001" ++ NL ++ bytes_of_string "0x00000003" ++ NL))
+  /\ tokenize (bytes_of_string "numa:1  numa:2" ++ NL) [] = [cstr "numa:1"; cstr "numa:2"].
+Proof. vm_compute. repeat split. Qed.
